@@ -2,8 +2,9 @@ CONSTANTS
   Lens = {80}
   Kinds = {"plain", "quoted"}
   MaxAddrs = 3
-  RecBudget = 333
-  StaleLenByte = TRUE
+  RecBudget = 331
+  HdrBudget = 104
+  QuoteBug = TRUE
   Truncate = FALSE
 INIT Init
 NEXT Next
